@@ -417,6 +417,171 @@ func checkC13(p *Program, r *Report) {
 		})
 	}
 	r.Floor("R13.3", "outflow contributions", r.PerRule["R13.3"][0], 2)
+	checkReleaseRuleOnEveryPath(p, r, m, k, key)
+}
+
+// checkReleaseRuleOnEveryPath (R13.5): whatever is written to the outflow series in a timestep derives from the
+// release rule — a function that looks up both the minimum-release and the maximum-release curve. A timestep that
+// reports an outflow computed without them (a constant on a shortcut path) cannot respect a minimum release above
+// zero, nor spill.
+func checkReleaseRuleOnEveryPath(p *Program, r *Report, m *Model, k *ssa.Function, key string) {
+	r.Rule("R13.5", "the release rule is applied in every timestep: every value written to the outflow series inside the time loop depends on the result of a function that consults both the minimum-release and the maximum-release curve (data dependence through the accumulators) — no path through a timestep reports an outflow computed without them")
+	paramByName := func(name string) *ssa.Parameter {
+		base := len(m.Inputs) + len(m.States)
+		for i, ps := range m.Params {
+			if ps.Name == name && base+i < len(k.Params) {
+				return k.Params[base+i]
+			}
+		}
+		return nil
+	}
+	minR, maxR := paramByName("minRelease"), paramByName("maxRelease")
+	var outPrm *ssa.Parameter
+	for oi, o := range m.Outputs {
+		if o == "outflow" {
+			if idx := len(m.Inputs) + len(m.States) + len(m.Params) + oi; idx < len(k.Params) {
+				outPrm = k.Params[idx]
+			}
+		}
+	}
+	if minR == nil || maxR == nil || outPrm == nil {
+		r.Undecided("R13.5", key+":anchors", p.Pos(k.Pos()), "minRelease / maxRelease / outflow not found among the kernel's parameters")
+		return
+	}
+	// functions (closures of the kernel, or module functions it calls) that consult a curve, directly or through
+	// another such function
+	isParam := func(v ssa.Value, prm *ssa.Parameter) bool {
+		for _, o := range origins(v) {
+			if o == ssa.Value(prm) {
+				return true
+			}
+			if u, ok := o.(*ssa.UnOp); ok {
+				for _, rv := range resolveCapturedLoad(u) {
+					if origin1(rv) == ssa.Value(prm) {
+						return true
+					}
+				}
+			}
+		}
+		return false
+	}
+	var closures []*ssa.Function
+	eachInstr(k, func(_ *ssa.BasicBlock, _ int, ins ssa.Instruction) {
+		if mc, ok := ins.(*ssa.MakeClosure); ok {
+			if f, ok := mc.Fn.(*ssa.Function); ok {
+				closures = append(closures, f)
+			}
+		}
+	})
+	calleeOfCall := func(c ssa.CallInstruction) *ssa.Function {
+		if f := c.Common().StaticCallee(); f != nil {
+			return f
+		}
+		if mc := closureValueOfCaptured(c.Common().Value); mc != nil {
+			f, _ := mc.Fn.(*ssa.Function)
+			return f
+		}
+		return nil
+	}
+	consults := map[*ssa.Function][2]bool{}
+	for changed := true; changed; {
+		changed = false
+		for _, f := range closures {
+			cur := consults[f]
+			for _, c := range callsIn(f) {
+				args := append([]ssa.Value{}, c.Common().Args...)
+				if c.Common().IsInvoke() {
+					args = append(args, c.Common().Value)
+				}
+				for _, a := range args {
+					if isParam(a, minR) {
+						cur[0] = true
+					}
+					if isParam(a, maxR) {
+						cur[1] = true
+					}
+				}
+				if g := calleeOfCall(c); g != nil {
+					if cg := consults[g]; cg[0] || cg[1] {
+						cur[0] = cur[0] || cg[0]
+						cur[1] = cur[1] || cg[1]
+					}
+				}
+			}
+			if cur != consults[f] {
+				consults[f] = cur
+				changed = true
+			}
+		}
+	}
+	isRelease := func(v ssa.Value) bool {
+		c, ok := v.(*ssa.Call)
+		if !ok {
+			return false
+		}
+		g := calleeOfCall(c)
+		if g == nil {
+			return false
+		}
+		if cg := consults[g]; cg[0] && cg[1] {
+			return true
+		}
+		// a module function or method handed the curves — as arguments, or inside a struct that bundles them
+		if g.Blocks == nil || !InModule(g) || c.Common().IsInvoke() {
+			return false
+		}
+		var got [2]bool
+		for ai, a := range c.Common().Args {
+			if ai >= len(g.Params) {
+				break
+			}
+			if isParam(a, minR) {
+				got[0] = true
+			}
+			if isParam(a, maxR) {
+				got[1] = true
+			}
+			st := structOf(g.Params[ai].Type())
+			if st == nil {
+				continue
+			}
+			for fk := 0; fk < st.NumFields(); fk++ {
+				for _, fv := range structFieldValues(a, fk, 0) {
+					for ci, prm := range []*ssa.Parameter{minR, maxR} {
+						if isParam(fv, prm) && usesField(g, ai, fk, 0) {
+							got[ci] = true
+						}
+					}
+				}
+			}
+		}
+		return got[0] && got[1]
+	}
+	tl := timeLoops(k)
+	n := 0
+	for _, c := range callsIn(k) {
+		nm := callName(c.Common())
+		if nm != "Set" && nm != "Set1" || recvOf(c.Common()) == nil || origin1(recvOf(c.Common())) != ssa.Value(outPrm) {
+			continue
+		}
+		in := false
+		for _, l := range tl {
+			if l.Blocks[c.Block()] {
+				in = true
+			}
+		}
+		if !in {
+			continue
+		}
+		n++
+		val := callArgs(c.Common())[1]
+		if dependsOn(val, isRelease, map[ssa.Value]bool{}) {
+			r.OK("R13.5", fmt.Sprintf("%s: the outflow written at %s derives from the release rule (minimum and maximum release curves)", key, p.Pos(c.Pos())))
+		} else {
+			r.Fail("R13.5", fmt.Sprintf("%s:outflow-write#%d", key, n), p.Pos(c.Pos()), "the outflow reported on this path through a timestep does not depend on the release rule (neither release curve is consulted for it): the minimum release, and the spill above full supply, are skipped for such a timestep")
+		}
+	}
+	r.Floor("R13.5", "outflow writes in the time loop", n, 1)
 }
 
 var effCache = map[*Program]*Effects{}
@@ -829,4 +994,36 @@ func (pc *polyCtx) showMono(p *Program, mono string) string {
 		out = append(out, d)
 	}
 	return strings.Join(out, "·")
+}
+
+// usesField: g loads field `field` of its struct parameter prm, or passes that parameter on to a module function
+// that does.
+func usesField(g *ssa.Function, prm, field, depth int) bool {
+	if g == nil || g.Blocks == nil || depth > 4 {
+		return false
+	}
+	found := false
+	eachInstr(g, func(_ *ssa.BasicBlock, _ int, ins ssa.Instruction) {
+		if found {
+			return
+		}
+		if v, ok := ins.(ssa.Value); ok {
+			if pi, fk, ok := fieldLoad(g, v); ok && pi == prm && fk == field {
+				found = true
+				return
+			}
+		}
+		if c, ok := ins.(ssa.CallInstruction); ok {
+			h := c.Common().StaticCallee()
+			if h == nil || !InModule(h) {
+				return
+			}
+			for ai, a := range c.Common().Args {
+				if paramBase(g, a) == prm && usesField(h, ai, field, depth+1) {
+					found = true
+				}
+			}
+		}
+	})
+	return found
 }
